@@ -44,7 +44,9 @@ func VerifHarness_C03() {
 	_ = w.ctrl.RunOnce()
 	j := w.summarize(g, mark)
 
-	verifAssert("C03.min-preserved", verifOr(j.taintAttempts == 0, s.untainted-int64(j.taintAttempts) >= minEff))
+	// "applies its taint": writes that were accepted (a rejected write leaves the node untainted
+	// and escalator moves on to the next candidate)
+	verifAssert("C03.min-preserved", verifOr(j.taintAdds == 0, s.untainted-int64(j.taintAdds) >= minEff))
 	below := verifAnd(s.untainted < minEff, verifAnd(minEff <= s.total, s.total <= maxEff))
 	verifAssert("C03.no-taint-below-min", verifImplies(below, j.taintAttempts == 0))
 	verifReachIf("C03.below-min", below)
